@@ -220,6 +220,12 @@ fn ascii_lowercase_u64(reader: &mut DeferredReader, offset: usize) -> (u64, usiz
     if reader.buf_len() < offset + 8 {
         return ascii_lowercase_u64_cold(reader, offset);
     }
+    #[cfg(flussab_verif)]
+    flussab::verif::emit(flussab::verif::Event::Fp {
+        func: "ascii_lowercase_u64",
+        offset,
+        buf_len: reader.buf_len(),
+    });
     let word = unsafe { u64::from_le_bytes(*(reader.buf_ptr().add(offset) as *const [u8; 8])) };
 
     const REPEAET: u64 = 0x0101010101010101;
